@@ -20,6 +20,8 @@ pub enum Ty {
     Ref,
     /// reference to the enclosing top-level type (recursion)
     SelfRef,
+    /// reference to another top-level type of the same module, by name (mutual recursion)
+    Named(String),
     Seq(Body),
     Set(Body),
     Choice(Body),
@@ -68,6 +70,7 @@ impl Ty {
             Ty::Enum => "anon-ENUMERATED",
             Ty::Ref => "ref",
             Ty::SelfRef => "selfref",
+            Ty::Named(_) => "named-ref",
             Ty::Seq(_) => "anon-SEQUENCE",
             Ty::Set(_) => "anon-SET",
             Ty::Choice(_) => "anon-CHOICE",
@@ -184,6 +187,7 @@ pub fn ty_text(t: &Ty, top: &str) -> String {
         Ty::Enum => "ENUMERATED { a, b }".into(),
         Ty::Ref => "T".into(),
         Ty::SelfRef => top.into(),
+        Ty::Named(n) => n.clone(),
         Ty::Seq(b) => format!("SEQUENCE {{{}}}", body_text(b, top)),
         Ty::Set(b) => format!("SET {{{}}}", body_text(b, top)),
         Ty::Choice(b) => format!("CHOICE {{{}}}", body_text(b, top)),
@@ -224,6 +228,11 @@ impl<'a> Cmp<'a> {
     fn d(&mut self, key: String, detail: String) {
         let full = format!("{}\n--- source ---\n{}", detail, self.src);
         self.discs.push(Disc::new(key, full));
+    }
+
+    /// compare the top-level assignment `name ::= t` for a constructed t
+    pub fn top_named(&mut self, name: &str, t: &Ty) {
+        self.item(name, t, "top");
     }
 
     /// compare the top-level assignment A ::= t
@@ -284,6 +293,12 @@ impl<'a> Cmp<'a> {
                 _ => return None,
             })
         };
+        if let Ty::Named(n) = exp {
+            if got_unboxed != n && self.check_shape {
+                self.d(format!("{}|ctx={ctx}|comp=named-ref|kind=type", self.prefix), format!("expected reference to {n}, got {got}"));
+            }
+            return; // Box placement is judged on the whole reference graph in finish()
+        }
         if let Some(want) = prim(exp.kind()) {
             // an OF element of built-in type may be rendered as a delegate newtype `Anonymous…(pub <prim>)`
             if _in_of && got_unboxed != want {
